@@ -315,3 +315,28 @@ Example ex_emit_reported_and_invisible :
   List.length (snd (fst plain)) = 1%nat /\ List.length (snd (fst instr)) = 2%nat /\
   proj [s2l "e9"] (snd (fst instr)) = snd (fst plain) /\ fst (fst instr) = fst (fst plain).
 Proof. vm_compute. repeat split; reflexivity. Qed.
+
+(* the premise [encodable] of trigger_event_transparent is necessary too (FINDING, notes/C18.md):
+   the event_received report nests the event's arguments in a tuple, which the packet encoder does not
+   treat as binary; with an admin connected an incoming event that carries bytes makes the report
+   raise TypeError BEFORE the original _trigger_event runs: the application handler is never invoked *)
+Definition ex_app_cfg : cfg :=
+  mkCfg [(s2l "/", [(s2l "ev", 1)])] [] [(1, mkBehav None [] (Returns (PStr (s2l "ok"))))] None false true.
+Definition ex_state2 : srv :=
+  let m0 := fst (mgr_connect mgr_init (s2l "e0") (s2l "/") (s2l "S0")) in
+  let m1 := fst (mgr_connect m0 (s2l "e9") ex_adm (s2l "A0")) in
+  mkSrv m1 [(s2l "e0", PDict [])] [] [] [s2l "e0"; s2l "e9"] 2.
+
+Theorem binary_event_dropped_refuted :
+  exists args,
+    adm_isolated ex_adm [s2l "e9"] ex_state2 /\
+    trigger_event ex_app_cfg (PStr (s2l "ev")) (s2l "/") args ex_state2
+      = (ex_state2, [Call 1 args], Ok (Some (PStr (s2l "ok")))) /\
+    w_trigger_event ex_app_cfg ex_adm (PStr (s2l "t")) (fun _ _ => PNone) (PStr (s2l "ev")) (s2l "/") args ex_state2
+      = (ex_state2, [], Err TypeError).
+Proof.
+  exists [PStr (s2l "S0"); PBytes [1; 2]]. split.
+  - intros b sid eio Hb Hin. vm_compute in Hb. inversion Hb; subst b.
+    destruct Hin as [H|[]]. inversion H; subst. reflexivity.
+  - split; vm_compute; reflexivity.
+Qed.
